@@ -38,6 +38,10 @@ def load_check():
 def translate(notes):
     """returns (ok, report)"""
     os.makedirs(WORK, exist_ok=True)
+    rc, o, e = sh([sys.executable, os.path.join(ROOT, "tools", "test_extract.py")])
+    if rc != 0:
+        notes.append("translator self-test failed: " + (o + e)[-800:])
+        return False, {}
     tgt = os.path.join(WORK, "expand-target")
     env = dict(ENV, CARGO_TARGET_DIR=tgt)
     outs = {}
